@@ -72,6 +72,8 @@ def cases(ctx):
     names = list(asm.NAME2OP) + list(asm.ALIASES)
     for i in range(6000 if t else 12):
         good = [r.choice(names) if r.random() < 0.6 else gen.rbytes(r, r.choice([1, 2, 3, 20, 76])).hex() for _ in range(r.randrange(1, 6))]
+        # hex data in lower, upper and mixed case is all "even-length hex"
+        good = [(g.upper() if r.random() < 0.3 else "".join(ch.upper() if r.random() < 0.5 else ch for ch in g)) if (r.random() < 0.5 and not g.startswith("OP_") and len(g) > 2 and not g.isdigit()) else g for g in good]
         good = [g for g in good if g not in ("OP_IF", "OP_NOTIF", "OP_VERIF", "OP_VERNOTIF", "OP_ELSE", "OP_ENDIF", "OP_PUSHDATA1", "OP_PUSHDATA2", "OP_PUSHDATA4")] or ["OP_1"]
         yield {"k": "text", "text": " ".join(good), "expect": "accept"}
         bad = r.choice(["abc", "0x51", "OP_FOO", "OP_1X", "zz", "12345", "OP_", "51 5", "g0", "-1", "17", "OP_CHECKSIGX", "1a2", "OP_DUP,", "0b", "op_dup", "Op_Dup", "OP_dup", "op_if", "op_1", "oP_cHECKSIG", "op_0", "OP_endif"])
